@@ -141,6 +141,20 @@ def check(case):
             pw = np.asarray(L.compute_pointwise_ll(params.copy()), dtype=float)
             case.close(np.sum(pw), -np.inf, what='sum of pointwise values with a non-positive scale')
 
+    if s['oos'] is None:
+        # The caller re-uses one parameter array and updates it in place between evaluations (as
+        # optimisers do): the value must follow the array's current content.
+        with case.clause('inplace_buffer'):
+            buf = params.copy()
+            for rnd in range(3):
+                j = rnd % len(buf)
+                got = L(buf)
+                case.close(got, float(np.real(llbuild.ref_ll(ll, buf))), rtol=1e-9,
+                           what='log-likelihood at a re-used buffer after %d in-place updates' % rnd)
+                case.close(np.sum(L.compute_pointwise_ll(buf)), got, rtol=1e-9,
+                           what='sum(pointwise) at the re-used buffer')
+                buf[j] *= 1.01
+
     with case.clause('posterior'):
         import chi
         prior = llbuild.build_prior(s['prior'])
